@@ -1,4 +1,5 @@
 import ShootVerif.Proofs.RestCall
+import ShootVerif.Props.C20
 /-!
 C10 — rest: status codes and bodies map to results and errors as documented.
 
@@ -14,6 +15,7 @@ theorem C10_model_eq_spec (shape : Shape) (t : Transport) (h : WF t = true) :
     obs (call shape t) = spec shape t := by
   cases t with
   | fault f => cases shape <;> simp [call, obs, spec, nilResult, Res.cls, quoteObs]
+  | respErr s => simp [WF] at h
   | resp s b =>
     simp only [WF, decide_eq_true_eq] at h
     rcases status_bands s with h2 | h4 | h5 | hn
@@ -78,9 +80,10 @@ theorem C10_decode_only_2xx (shape : Shape) (s : Int) (b : Body) (e : Err)
 /-- whenever a response was received it is returned, with or without an error;
     after a transport fault there is none -/
 theorem C10_resp_returned (shape : Shape) (t : Transport) :
-    (call shape t).resp = match t with | .resp _ _ => true | .fault _ => false := by
+    (call shape t).resp = match t with | .resp _ _ => true | .fault _ => false | .respErr _ => false := by
   cases t with
   | fault f => rfl
+  | respErr s => rfl
   | resp s b =>
     cases hs : switchErr s with
     | some e => simp [call, hs]
@@ -94,6 +97,7 @@ theorem C10_result_nil_on_error (shape : Shape) (t : Transport) (h : (call shape
     (call shape t).result = nilResult shape := by
   cases t with
   | fault f => rfl
+  | respErr s => rfl
   | resp s b =>
     cases hs : switchErr s with
     | some e => simp [call, hs]
@@ -116,6 +120,43 @@ theorem C10_valid_decoded (shape : Shape) (s : Int) (h : 200 ≤ s ∧ s < 300) 
     call shape (.resp s .valid) = ⟨.decoded, true, none⟩ := by
   rw [call_2xx shape s .valid h]
   cases shape <;> simp_all [tail, decodeOf]
+
+/-- finding witness: a redirect refused by the client's CheckRedirect policy — `client.Do` returns the
+    302 response AND the policy's error; the generated method returns the error but a nil response -/
+theorem C10_F_respWithError_witness :
+    F_respWithError (.respErr 302) = true ∧ WF (.respErr 302) = false ∧
+    (obs (call .ptr (.respErr 302))).resp = false ∧ (spec .ptr (.respErr 302)).resp = true ∧
+    (obs (call .ptr (.respErr 302))).err = (spec .ptr (.respErr 302)).err := by decide
+
+/-- with RetryMiddleware(n) in the client's chain: when attempt k ≤ n is the first whose answer is a
+    response below 500, that response (status, body) is what the generated code classifies — e.g. a
+    503 followed by a 200 with valid JSON yields the decoded value and a nil error -/
+theorem C10_retry_first_acceptable (sts : List (Retry.Outcome × Body)) (n k : Nat) (s : Nat) (b : Body)
+    (hk : k ≤ n) (hget : sts[k]? = some (.resp s, b)) (hs : s < 500)
+    (hmin : ∀ j, j < k → ((sts.map (fun x : Retry.Outcome × Body => x.1)).getD j Retry.Outcome.err).acceptable = false) :
+    effective sts n = .resp (s : Int) b := by
+  have hk' : k < sts.length := by
+    cases h : sts[k]? with
+    | none => rw [h] at hget; cases hget
+    | some x => exact (List.getElem?_eq_some_iff.1 h).1
+  have hsk : (sts.map (fun x : Retry.Outcome × Body => x.1)).getD k Retry.Outcome.err = .resp s := by
+    simp [List.getD, List.getElem?_map, hget]
+  have hacc : ((sts.map (fun x : Retry.Outcome × Body => x.1)).getD k Retry.Outcome.err).acceptable = true := by
+    rw [hsk]; simp [Retry.Outcome.acceptable, hs]
+  have := (Retry.C20_stop_first (fun i => (sts.map (fun x : Retry.Outcome × Body => x.1)).getD i Retry.Outcome.err) n k hk hacc hmin).2
+  unfold effective
+  simp only [this]
+  have hg : sts.getD k (.err, .empty) = (.resp s, b) := by simp [List.getD, hget]
+  rw [hg]
+
+/-- … and through such a chain the generated code still meets the property on what it is handed -/
+theorem C10_retry_chain (shape : Shape) (sts : List (Retry.Outcome × Body)) (n : Nat)
+    (h : WF (effective sts n) = true) :
+    obs (call shape (effective sts n)) = spec shape (effective sts n) := C10_model_eq_spec shape _ h
+
+example : effective [(.resp 503, .malformed), (.err, .empty), (.resp 200, .valid)] 2 = .resp 200 .valid ∧
+    call .slice (effective [(.resp 503, .malformed), (.err, .empty), (.resp 200, .valid)] 2) = ⟨.decoded, true, none⟩ := by
+  decide
 
 /-- outside the property's range (recorded, region `Out`): the code's first arm is `>= 500`, so a
     status of 600 or more is reported as a *server* error, not as "not supported" -/
